@@ -190,7 +190,7 @@ func oneWriteFault(tg writeTarget, wf sim.WFault, st *sim.Stats, explain bool) *
 func C13() *sim.Check {
 	readSurfaces := []Surface{SurfPS, SurfPS, SurfCMap, SurfFont, SurfFont, SurfAFM, SurfPFB}
 
-	reads := &sim.Batch{Name: "read-faults", Quick: 3000, Thorough: 350_000}
+	reads := &sim.Batch{Name: "read-faults", Quick: 3000, Thorough: 200_000}
 	reads.Run = func(c *sim.RunCtx) *sim.Outcome {
 		t := c.T
 		in := genInput(t, readSurfaces, c.St)
@@ -219,7 +219,7 @@ func C13() *sim.Check {
 	}
 
 	// every offset of smaller inputs
-	every := &sim.Batch{Name: "read-faults-every-offset", Quick: 120, Thorough: 12_000}
+	every := &sim.Batch{Name: "read-faults-every-offset", Quick: 120, Thorough: 3_000}
 	every.Run = func(c *sim.RunCtx) *sim.Outcome {
 		t := c.T
 		in := genInput(t, readSurfaces, c.St)
@@ -284,7 +284,7 @@ func C13() *sim.Check {
 		return nil
 	}
 
-	trunc := &sim.Batch{Name: "truncation", Quick: 2500, Thorough: 60_000}
+	trunc := &sim.Batch{Name: "truncation", Quick: 2500, Thorough: 6_000}
 	trunc.Run = func(c *sim.RunCtx) *sim.Outcome {
 		t := c.T
 		var in *Input
@@ -341,7 +341,7 @@ func C13() *sim.Check {
 		return nil
 	}
 
-	writes := &sim.Batch{Name: "write-faults", Quick: 1500, Thorough: 40_000}
+	writes := &sim.Batch{Name: "write-faults", Quick: 1500, Thorough: 20_000}
 	writes.Run = func(c *sim.RunCtx) *sim.Outcome {
 		t := c.T
 		tg := genWriteTarget(t)
@@ -396,10 +396,11 @@ func C13() *sim.Check {
 
 	return &sim.Check{
 		Prop: "C13", Harness: "h_fault", Level: "fault_enumeration",
-		Rule:     "read-faults: for a drawn input (program, CMap, font in 4 formats / re-laid-out, AFM, PFB) and base chunking, a persistent fault (with and without data arriving in the failing call) a transient one-shot fault, and a one-shot error arriving together with valid bytes (asserted where a fault-free probe run with identical chunking shows the library comes back for more input; not for io.ReadFull-based consumers) are injected at offsets 0,1,2,3,len-2..len, every structural boundary +-2 and 24 random offsets; read-faults-every-offset does the same at EVERY offset 0..len of inputs <= 4096 bytes; seek-faults fails Seek call #0..#3 of the seekable type1.Read path; truncation cuts complete single-font / single-CMap files at every offset (thorough; sampled + boundaries in quick for files > 600 bytes); write-faults fails one call (fail-once), short-writes one call, fails from a call on, at every write-call index (thorough; all for <= 120 calls, sampled otherwise) and runs out of disk at sampled byte budgets, for Font.Write x 4 formats, Font.WritePDF and Metrics.Write. Oracle: a fault counts as delivered only when a Read/Seek/Write actually returned the injected error with n==0 (reads) or at all (writes); delivered => the public call returns a non-nil error; never a panic, never unbounded reading; truncated file => error or dump equal to the whole file's. distinct_nontrivial = distinct (input hash, fault kind, position) with the fault delivered.",
-		Assume:   []string{"the identity and text of the returned error are not checked", "io.ReadFull legitimately drops an error that arrives with the last byte it needed, hence the delivered rule", "multi-CMap files are excluded from the truncation clause (a prefix defining the first CMap is a complete answer to a different question; C17 covers which one is returned)"},
-		RealStub: map[string]any{"real": []string{"all readers and writers of /repo (unmodified)", "text/template, bufio.Scanner, io.ReadFull, fmt.Fprintf"}, "stub": []string{"io.Reader / io.ReadSeeker (SimReader with fault plan)", "io.Writer (SimWriter with fault plan)"}},
-		Batches:  []*sim.Batch{reads, seeks, trunc, writes, every},
+		Rule:        "read-faults: for a drawn input (program, CMap, font in 4 formats / re-laid-out, AFM, PFB) and base chunking, a persistent fault (with and without data arriving in the failing call) a transient one-shot fault, and a one-shot error arriving together with valid bytes (asserted where a fault-free probe run with identical chunking shows the library comes back for more input; not for io.ReadFull-based consumers) are injected at offsets 0,1,2,3,len-2..len, every structural boundary +-2 and 24 random offsets; read-faults-every-offset does the same at EVERY offset 0..len of inputs <= 4096 bytes; seek-faults fails Seek call #0..#3 of the seekable type1.Read path; truncation cuts complete single-font / single-CMap files at every offset (thorough; sampled + boundaries in quick for files > 600 bytes); write-faults fails one call (fail-once), short-writes one call, fails from a call on, at every write-call index (thorough; all for <= 120 calls, sampled otherwise) and runs out of disk at sampled byte budgets, for Font.Write x 4 formats, Font.WritePDF and Metrics.Write. Oracle: a fault counts as delivered only when a Read/Seek/Write actually returned the injected error with n==0 (reads) or at all (writes); delivered => the public call returns a non-nil error; never a panic, never unbounded reading; truncated file => error or dump equal to the whole file's. distinct_nontrivial = distinct (input hash, fault kind, position) with the fault delivered.",
+		Assume:      []string{"the identity and text of the returned error are not checked", "io.ReadFull legitimately drops an error that arrives with the last byte it needed, hence the delivered rule", "multi-CMap files are excluded from the truncation clause (a prefix defining the first CMap is a complete answer to a different question; C17 covers which one is returned)"},
+		RealStub:    map[string]any{"real": []string{"all readers and writers of /repo (unmodified)", "text/template, bufio.Scanner, io.ReadFull, fmt.Fprintf"}, "stub": []string{"io.Reader / io.ReadSeeker (SimReader with fault plan)", "io.Writer (SimWriter with fault plan)"}},
+		Batches:     []*sim.Batch{reads, seeks, trunc, writes, every},
+		SimTimeUnit: "simulated Read, Seek and Write calls served to the library", SimTimeCounters: []string{"sim_read_calls", "sim_seek_calls", "sim_write_calls"},
 		Probes: []string{"fired_persistent", "fired_persistent+data", "fired_transient", "fired_transient+data", "fired_seek", "fired_truncate", "fired_fail-once", "fired_short-once", "fired_fail-from", "fired_disk-full",
 			"truncation_gave_error", "truncation_gave_complete_result", "inputs_with_every_offset", "targets_with_every_write_call"},
 	}
